@@ -4,6 +4,7 @@
 package zzsimhook
 
 import (
+	"os/exec"
 	"sort"
 	"sync"
 )
@@ -99,6 +100,19 @@ func Go(site string, f func()) {
 		return
 	}
 	go f()
+}
+
+// CmdWaitFn replaces (*exec.Cmd).Wait for simulated child processes.
+var CmdWaitFn func(cmd *exec.Cmd) (error, bool)
+
+// CmdWait waits for a child process: a simulated one if the simulator knows cmd, else the real one.
+func CmdWait(cmd *exec.Cmd) error {
+	if f := CmdWaitFn; f != nil {
+		if err, ok := f(cmd); ok {
+			return err
+		}
+	}
+	return cmd.Wait()
 }
 
 // Yv yields after an operation whose value is v.
